@@ -189,7 +189,20 @@ fn protect(root: &Path, file: &str) -> bool {
         let _ = std::fs::write(root.join(file), b"");
     }
     chown_path(&root.join(file), NOBODY);
-    true
+    // the scene only exists if uid 65534 can reach it: a scratch directory below a directory that is
+    // closed to others (e.g. a checkout under /root, mode 0700) is out of its reach, every operation of
+    // the appender would fail before the rotation — that is the environment, not the crate
+    let reachable = {
+        let _uid = Euid::drop_to(NOBODY, true);
+        _uid.0
+            && std::fs::OpenOptions::new().append(true).open(root.join(file)).is_ok()
+            && std::fs::read_dir(root.join("arch")).is_ok()
+    };
+    if !reachable {
+        chown_tree(&root.join("arch"), 0);
+        chown_path(&root.join(file), 0);
+    }
+    reachable
 }
 
 fn copy_dir(src: &Path, dst: &Path) {
